@@ -72,5 +72,11 @@ _DV = "src/core/device.c"
 _g13(r"case NNI_DEVICE_STATE_RECV:\s*// Leave the message where it is\.\s*p->state = NNI_DEVICE_STATE_SEND;", _DV, "device_cb RECV -> SEND leaves the message in the aio")
 _g13(r"switch \(next\) \{\s*case NNI_DEVICE_STATE_SEND:\s*nni_sock_recv\(p->src, &p->aio\);\s*break;\s*case NNI_DEVICE_STATE_RECV:\s*nni_sock_send\(p->dst, &p->aio\);", _DV, "device_cb recv(src) / send(dst)")
 _g13(r"if \(\(rv != 0\) && \(p->state == NNI_DEVICE_STATE_RECV\)\) \{\s*nni_msg_free\(nni_aio_get_msg\(&p->aio\)\);", _DV, "device_cb frees a received message when the device is stopping")
-_g13(r"if \(rv != 0\) \{\s*if \(p->state == NNI_DEVICE_STATE_SEND\) \{\s*nni_msg_free\(nni_aio_get_msg\(&p->aio\)\);", _DV, "device_cb frees the message of a failed send")
+# failing path: the current form frees whatever is attached; the form first pinned only in the SEND state
+_dsrc = src(_DV)
+_cur = re.search(r"if \(rv != 0\) \{\s*(?://[^\n]*\n\s*)*nni_msg_free\(nni_aio_get_msg\(&p->aio\)\);\s*nni_aio_set_msg\(&p->aio, NULL\);\s*p->state = NNI_DEVICE_STATE_FINI;", _dsrc)
+_old = re.search(r"if \(rv != 0\) \{\s*if \(p->state == NNI_DEVICE_STATE_SEND\) \{\s*nni_msg_free\(nni_aio_get_msg\(&p->aio\)\);", _dsrc)
+if not _cur and not _old:
+    missing.append("device_cb failing path (neither the pinned nor the repaired form) in %s" % _DV)
+extra_text.append("Definition C13_DEVICE_FREES_ATTACHED : bool := %s.  (* src/core/device.c device_cb: a failing path frees whatever message is attached to its aio *)" % ("true" if _cur else "false"))
 _g13(r"if \(!nni_sock_raw\(s1\)\) \{\s*return \(NNG_EINVAL\);", _DV, "device_init requires raw sockets")
